@@ -144,6 +144,19 @@ def write_project(root, files, seed, opts_extra, name="Determinism", pages=True)
         open(os.path.join(pd, "sub", "leaf.md"), "w").write("title: Leaf\n\nText\n")
         opts["page_dir"] = "./pages"
     open(os.path.join(proj, "src", "data.inc"), "w").write("! extra file\n! another line\n")
+    # INCLUDE: two include directories hold a file of one name (the first one listed wins), and an include line whose spelling
+    # matches no file exactly while two files differ from it in letter case only (FORD reports it and goes on)
+    for k, dn in enumerate(("inc_generic", "inc_platform")):
+        os.makedirs(os.path.join(proj, dn), exist_ok=True)
+        open(os.path.join(proj, dn, "defs.inc"), "w").write(f"integer :: from_{dn} = {k}\n!! doc of the variable from {dn}\n")
+    opts["include"] = ["./inc_platform", "./inc_generic"]
+    open(os.path.join(proj, "src", "params.h"), "w").write("integer :: lower_params = 1\n")
+    open(os.path.join(proj, "src", "PARAMS.H"), "w").write("integer :: upper_params = 2\n")
+    open(os.path.join(proj, "src", "zz_includes.f90"), "w").write(f"module zz_inc{seed % 1000}\n!! doc\nimplicit none\ninclude 'defs.inc'\ninclude 'Params.h'\nend module zz_inc{seed % 1000}\n")
+    # a media directory with a sub-directory: links to directories below the output tree, written without trailing slash
+    os.makedirs(os.path.join(proj, "media", "gallery"), exist_ok=True)
+    open(os.path.join(proj, "media", "gallery", "g.png"), "wb").write(b"PNG")
+    opts["media_dir"] = "./media"
     if opts.get("external"):
         for nm in ("liba", "libb", "libc"):
             d = os.path.join(proj, "ext", nm)
@@ -155,7 +168,7 @@ def write_project(root, files, seed, opts_extra, name="Determinism", pages=True)
                 open(os.path.join(d, "modules.json"), "w").write(real)
             else:
                 json.dump({"ford-metadata": {"version": "0"}, "modules": mods}, open(os.path.join(d, "modules.json"), "w"))
-    site.write_project_file(proj, opts, body="Front page with [[gen_0]]." + (" External: [[vec]], [[norm]], [[mk_vec]], [[only_libb]]." if opts.get("external") else "") + "\n")
+    site.write_project_file(proj, opts, body="Front page with [[gen_0]]. [gallery](|media|/gallery) [pages](|page|/sub) [top](|url|/module)" + (" External: [[vec]], [[norm]], [[mk_vec]], [[only_libb]]." if opts.get("external") else "") + "\n")
     return proj
 
 
